@@ -82,12 +82,15 @@ def run(P: Program, R: Report, tier: str) -> None:
         val = c.args[1] if len(c.args) > 1 else next((k.value for k in c.keywords if k.arg == "value"), None)
         txt = norm(val)
         # resolve a local defined by one assignment
-        cands = [txt]
+        from ..resolve import Resolver as _Rs
+
+        rs7 = _Rs(P, fn)
+        cands = [rs7.text(val)]
         if isinstance(val, ast.Name):
-            defs = [s for s in ast.walk(fn.node) if isinstance(s, ast.Assign) and any(isinstance(t, ast.Name) and t.id == val.id for t in s.targets)]
-            if defs:
-                cands = [norm(d_.value) for d_ in defs]  # every value the local can hold (conditional expressions are split into branches)
-                txt = " | ".join(sorted(set(cands)))
+            defs = rs7._defs.get(val.id, [])
+            if len(defs) > 1:
+                cands = [rs7.text(d_) for d_ in defs]  # every value the local can hold (conditional expressions are split into branches)
+        txt = " | ".join(sorted(set(cands)))
 
         def own_or_zero(e: str) -> bool:
             e = e.strip()
@@ -103,10 +106,10 @@ def run(P: Program, R: Report, tier: str) -> None:
         if "add_node(" in body or "remove_node(" in body:
             which = "add_node" if "add_node(" in body else "remove_node"
             gcall = next(x for x in ast.walk(fn.node) if isinstance(x, ast.Call) and call_name(x) == which)
-            same = norm(gcall.args[0]) == "self.node"
+            same = rs7.text(gcall.args[0]) == "self.node"
             want = "self.node" if which == "add_node" else "0"
             R.check(same and txt == want, "R07.3", fn, c, f"{cls.name}: {'painting' if which == 'add_node' else 'clearing'} is coupled to {which}(self.node)",
-                    f"{which}({norm(gcall.args[0])}) with painted value {txt}", via="dataflow")
+                    f"{which}({rs7.text(gcall.args[0])}) with painted value {txt}", via="dataflow")
             # the paint is conditional only on pixels being present
             guards = [g for g in ast.walk(fn.node) if isinstance(g, ast.If) and c in list(ast.walk(g))]
             ok = all(norm(g.test) in ("self.pixels is not None", "self.pixels") for g in guards) and len(guards) <= 1
